@@ -340,8 +340,8 @@ func (db *DB) setPin(batch driver.Batching, item, rootItem shed.Item) (gcSizeCha
 						return 0, err
 					}
 				}
+				gcSizeChange--
 			}
-			gcSizeChange--
 		}
 	}
 
